@@ -3483,9 +3483,18 @@ impl<'a> Parser<'a> {
         // This pattern could be captured better with RAII type semantics, but it's quite a bit of
         // code to add for just one case, so we'll just do it manually here.
         let old_value = self.options.trailing_commas;
-        self.options.trailing_commas |= self.dialect.supports_projection_trailing_commas();
+        let new_value = old_value | self.dialect.supports_projection_trailing_commas();
+        self.options.trailing_commas = new_value;
 
-        let ret = self.parse_comma_separated(|p| p.parse_select_item());
+        // The extra trailing comma belongs to this list only: each item is parsed with the
+        // option as it was, so that the lists of a subquery nested in an item (FROM, GROUP BY,
+        // ...) follow the same rule as those of any other subquery.
+        let ret = self.parse_comma_separated(|p| {
+            p.options.trailing_commas = old_value;
+            let item = p.parse_select_item();
+            p.options.trailing_commas = new_value;
+            item
+        });
         self.options.trailing_commas = old_value;
 
         ret
